@@ -38,10 +38,10 @@ def run_case(case: Case, max_paths=200000):
     assume = [z3.And(terms[k] >= lo, terms[k] <= hi) for k, (lo, hi) in case.ranges.items()]
     failures, divergences = [], []
     stats = dict(paths=0, queries=0, solver_s=0.0, native_replays=0)
-    plan: list = []
+    state = zsym.PathState(assume, 20000)
     t0 = time.time()
     while True:
-        c = zsym.CTX = zsym._Ctx(plan, assume, 20000)
+        c = zsym.CTX = zsym._Ctx(state)
         ok_path = True
         try:
             out = case.body({k: SInt(t) for k, t in terms.items()})
@@ -65,22 +65,21 @@ def run_case(case: Case, max_paths=200000):
                 divergences.append(dict(args=args, symbolic=_norm(obs), native=_norm(obs2)))
             elif not ok2:
                 failures.append((args, obs2))
-            plan = plan[: c.pos]
         stats["queries"] += c.queries
         stats["solver_s"] += c.solver_s
-        while plan and plan[-1][1]:
-            plan.pop()
-        if not plan:
+        if not state.next_path(c.pos if ok_path else None):
             break
-        plan[-1] = [not plan[-1][0], True, plan[-1][2]]
     stats["wall"] = time.time() - t0
     return dict(stats=stats, failures=failures, divergences=divergences)
 
 
 def _norm(o):
+    """comparison key of an observation: numbers that the real code formatted into messages appear as
+    '<symint>' in the symbolic run, so digits and placeholders are abstracted before comparing"""
     import json
+    import re
 
-    return json.dumps(o, sort_keys=True, default=repr)
+    return re.sub(r"<sym\w+>|-?\d+", "#", json.dumps(o, sort_keys=True, default=repr))
 
 
 # ---- process sharding ---------------------------------------------------------------------------
